@@ -18,6 +18,10 @@ def body(chk):
     run_lane(chk, driver.DriverStep, (PID, nr, ns), bounds={'pre-state': f'{nr} pending single-result operations + {ns} running search(es) with symbolic, pairwise distinct IDs; in-use set an arbitrary array containing them',
              'events': [e for e in driver.EVENTS if driver.DriverStep(None, PID, nr, ns).want_event(e)], 'select! start index': 'symbolic', 'socket answers': 'ok / error per call', 'response': 'any ID, any operation tag <= 30'},
              selftest=False, need_regions=need)
+    if PID in ('C04', 'C01', 'C12'):
+        # the idle connection: nothing pending, nothing running
+        run_lane(chk, driver.DriverStep, (PID, 0, 0), bounds={'pre-state': 'no pending operation and no running search (idle connection)', 'events': 'as above', 'response': 'any ID (incl. 0 and negative), any operation tag <= 30'},
+                 selftest=False, need_regions={'C04': ('resp-eof', 'resp-err', 'op-single'), 'C01': ('resp', 'none'), 'C12': ('resp',)}[PID])
     if streams is not None:
         streams.extra_lanes(chk, PID)
     chk.assumptions += driver.ASSUMPTIONS.get(PID, []) + driver.ASSUMPTIONS['all']
